@@ -1636,6 +1636,23 @@ def c10(tier):
         rep.neg_controls.append({"spec_mutant": "drain:" + bug, "expected_violation": inv, "found": found})
         if not found:
             raise ToolTrouble("spec mutant %s of the drain loop not detected" % bug)
+    if tier == "thorough":
+        # the drain loop for entries of ANY size and ANY request size (Apalache/SMT): inductive invariant + ranking argument
+        obl = [("initiation", ["--cinit=CInit", "--init=PInit", "--next=PStep", "--inv=IndInv", "--length=0"]),
+               ("consecution", ["--cinit=CInit", "--init=IndInit", "--next=PStep", "--inv=IndInv", "--length=1"]),
+               ("IndInv implies the invariants", ["--cinit=CInit", "--init=IndInit", "--next=PStep", "--inv=Implied", "--length=0"]),
+               ("ranking: every iteration ends the loop or shrinks the rest", ["--cinit=CInit", "--init=IndInit", "--next=PStep", "--inv=Ranked", "--length=1"])]
+        for name, args in obl:
+            ok, tail = apalache("StreamDrainProof.tla", args, wd, "drainproof")
+            if not ok:
+                log(tail)
+                raise ToolTrouble("Apalache did not discharge StreamDrainProof: " + name)
+        bad, tail = apalache("StreamDrainProof.tla", ["--cinit=CInitLoop", "--init=IndInit", "--next=PStep", "--inv=Ranked", "--length=1"], wd, "drainproof-neg")
+        if bad or "Checker has found an error" not in tail:
+            log(tail)
+            raise ToolTrouble("Apalache did not refute the ranking obligation under loop_on_eof")
+        rep.neg_controls.append({"spec_mutant": "StreamDrainProof ranking with BUG = loop_on_eof", "expected_violation": "Ranked", "found": True})
+        rep.notes["apalache_obligations"] = {"obligations": 4, "discharged": 4, "spec": "StreamDrainProof.tla (inductive invariant => LandsOnBoundary/NeverOverruns/ErrOnlyIfCut; ranking => termination; all naturals)"}
     sd = vlib.seed()
     rnd = random.Random(sd * 4447 + 10)
     scs = []
